@@ -7,13 +7,14 @@ package main
 
 import (
 	"fmt"
+	"time"
 
 	sdk "github.com/cosmos/cosmos-sdk/types"
 
 	"github.com/irismod/service/types"
 )
 
-const nScripts = 13
+const nScripts = 22
 
 func runScript(a *App, mon *Mon, seed int64, v int) {
 	p := baseParams()
@@ -22,6 +23,12 @@ func runScript(a *App, mon *Mon, seed int64, v int) {
 	o1, o2 := s.A.Owners[0], s.A.Owners[1]
 	p1, p2, p3 := s.A.SignProv[0], s.A.SignProv[1], s.A.SignProv[2]
 	cons := s.A.Consumers[0]
+	if v == 19 {
+		// before the module's accounts exist on this chain, their addresses are named as
+		// withdrawal addresses
+		s.r.Msg(types.NewMsgSetWithdrawAddress(o1, s.r.w.actors["deposits"]), "deposit account as withdrawal address, before it exists")
+		s.r.Msg(types.NewMsgSetWithdrawAddress(o2, s.r.w.actors["escrow"]), "request escrow as withdrawal address, before it exists")
+	}
 	s.define("svc")
 	s.bind("svc", p1, o1, 1000, price("2"), 1)
 	s.bind("svc", p2, o1, 1000, price("3"), 1)
@@ -159,6 +166,110 @@ func runScript(a *App, mon *Mon, seed int64, v int) {
 		answer(id, p1)
 		blocks(5)
 		answer(id, p1, p2)
+		blocks(8)
+	case 13:
+		// paused while a batch is in flight, then the total is lowered to exactly the number
+		// of batches issued: nothing of the batch in flight may be left behind
+		id := s.call("svc", all, cons, 100, 4, false, true, 5, 4)
+		s.block()
+		s.ctl("pause", id, cons)
+		s.block()
+		s.r.Msg(types.NewMsgUpdateRequestContext(unhex(id), nil, nil, 0, 0, 1, cons), "total lowered to the current batch counter while paused in flight")
+		answer(id, p1)
+		blocks(8)
+	case 14:
+		// another module pays from its own module account; requests time out or are answered
+		// with a malformed output: the fees go back to that account
+		gov := s.r.w.actors["govacc"]
+		id := s.modCreate("svc", all, gov, 100, 3, true, 4, 2, 1)
+		s.block()
+		for _, rid := range s.pendingOf(id, p1) {
+			s.respond(rid, p1, 1)
+		}
+		answer(id, p2)
+		blocks(4)
+		blocks(6)
+	case 15:
+		// two calls in one transaction, by different consumers with different inputs, to the same
+		// binding; both pending when the by-binding query is asked
+		s.r.MsgTx(types.NewMsgCallService("svc", []sdk.AccAddress{p1}, cons, `{"header":{},"body":{"q":"first"}}`, coins(100), 3, false, false, 0, 0), "", false)
+		s.r.MsgTx(types.NewMsgCallService("svc", []sdk.AccAddress{p1, p2}, s.A.Consumers[1], `{"header":{},"body":{"q":"second"}}`, coins(100), 3, false, true, 4, 2), "second message of the transaction", true)
+		s.r.MsgTx(types.NewMsgCallService("svc", []sdk.AccAddress{p1}, s.A.Stranger, `{"header":{},"body":{"q":"third"}}`, coins(100), 2, true, false, 0, 0), "third message of the transaction", true)
+		s.block()
+		s.block()
+		answer("", p1)
+		blocks(6)
+	case 16:
+		// a module asks twice while it handles one message
+		s.r.Mod(ModOp{Op: "create2", Service: "svc", Providers: []string{hexs(p1), hexs(p2)}, Consumer: hexs(cons), Input: goodInput, FeeCap: 100, Timeout: 2,
+			Repeated: true, Freq: 3, Total: 2, Threshold: 1, Module: verifModule}, "two contexts under one message")
+		s.r.MsgTx(types.NewMsgCallService("svc", []sdk.AccAddress{p1}, cons, goodInput, coins(100), 2, false, false, 0, 0), "", false)
+		s.r.MsgTx(types.NewMsgCallService("svc", []sdk.AccAddress{p2}, cons, goodInput, coins(100), 2, false, false, 0, 0), "next message of that transaction", true)
+		s.block()
+		answer("", p1, p2)
+		blocks(8)
+	case 17:
+		// more providers than a context may name, in an update; then the genesis is exported
+		id := s.call("svc", all, cons, 100, 3, false, true, 4, 3)
+		eleven := append(append([]sdk.AccAddress{}, s.A.SignProv[:4]...), s.A.OddProv[:7]...)
+		s.r.Msg(types.NewMsgUpdateRequestContext(unhex(id), eleven, nil, 0, 0, 0, cons), "invalid: eleven providers in an update")
+		s.r.Msg(types.NewMsgUpdateRequestContext(unhex(id), eleven[:10], nil, 0, 0, 0, cons), "ten providers")
+		blocks(6)
+	case 18:
+		// bank transfers into the module's accounts (before and after they exist), the owner
+		// withdrawing with an explicitly empty provider field, swapped provider / owner fields
+		s.r.Send(s.A.Stranger, s.r.w.actors["deposits"], 7, "transfer into the deposit account")
+		s.r.Send(s.A.Stranger, s.r.w.actors["escrow"], 7, "transfer into the request escrow")
+		s.r.Send(s.A.Stranger, cons, 7, "ordinary transfer")
+		id := s.call("svc", all, cons, 100, 2, false, false, 0, 0)
+		s.block()
+		answer(id, p1, p2, p3)
+		s.block()
+		s.r.Msg(types.NewMsgDisableServiceBinding("svc", o1, p1), "wrong-signer: provider and owner fields swapped")
+		s.r.Msg(types.NewMsgWithdrawEarnedFees(p1, o1), "wrong-signer: provider and owner fields swapped")
+		s.r.Msg(types.NewMsgSetWithdrawAddress(o1, s.A.Wallets[0]), "")
+		bz, err := types.NewMsgWithdrawEarnedFees(o1, nil).Marshal()
+		must(err)
+		s.r.MsgRaw(types.TypeMsgWithdrawEarnedFees, append(bz, 0x12, 0x00), "explicit empty provider field")
+		s.r.Msg(types.NewMsgWithdrawEarnedFees(o2, nil), "")
+		s.r.Send(s.A.Stranger, s.r.w.actors["deposits"], 7, "transfer into the deposit account")
+		blocks(2)
+	case 19:
+		id := s.call("svc", all, cons, 100, 2, false, false, 0, 0)
+		s.block()
+		answer(id, p1, p2, p3)
+		s.block()
+		s.r.Msg(types.NewMsgWithdrawEarnedFees(o1, nil), "")
+		s.r.Msg(types.NewMsgWithdrawEarnedFees(o2, p3), "")
+		blocks(2)
+	case 20:
+		// disabled by its owner, enabled again with a top-up, much later disabled by a slash:
+		// the refund wait counts from the slash
+		p4 := s.A.SignProv[3]
+		s.bind("svc", p4, o2, 50, price("2"), 1) // exactly the minimum deposit
+		s.r.Msg(types.NewMsgDisableServiceBinding("svc", p4, o2), "")
+		s.block()
+		s.r.Msg(types.NewMsgEnableServiceBinding("svc", p4, coins(1), o2), "enable with a top-up")
+		s.r.Block(30 * time.Second)
+		s.call("svc", []sdk.AccAddress{p4}, cons, 100, 1, false, false, 0, 0)
+		s.call("svc", []sdk.AccAddress{p4}, s.A.Consumers[1], 100, 1, false, false, 0, 0)
+		s.block()
+		s.block() // both time out: slashed below the minimum, disabled now
+		s.r.Msg(types.NewMsgRefundServiceDeposit("svc", p4, o2), "refund right after the slash")
+		s.block()
+		s.r.Msg(types.NewMsgRefundServiceDeposit("svc", p4, o2), "refund 5 s after the slash")
+		s.r.Block(10*time.Second - 1)
+		s.r.Msg(types.NewMsgRefundServiceDeposit("svc", p4, o2), "1 ns early")
+		s.r.Block(1)
+		s.r.Msg(types.NewMsgRefundServiceDeposit("svc", p4, o2), "at the deadline")
+	case 21:
+		// the provider dropped from the context answers the request it was sent: in time, its own
+		id := s.call("svc", all, cons, 100, 3, false, true, 4, 3)
+		s.block()
+		s.r.Msg(types.NewMsgUpdateRequestContext(unhex(id), []sdk.AccAddress{p1, p2}, nil, 0, 0, 0, cons), "drop a provider mid-batch")
+		answer(id, p3, p1)
+		blocks(5)
+		answer(id, p1, p2, p3)
 		blocks(8)
 	}
 	s.done()
